@@ -233,6 +233,8 @@ int main(int argc, char **argv) {
       return o;
     };
     vf::EncOpts o = make_opts(b);
+    // The volume/sanitizer constraints (AvoidHugeEntropyTables) may lower the bit depth: the oracle follows the options actually used.
+    tg.bits = (tg.explicit_q && o.explicit_q[b.target_att].bits > 0) ? o.explicit_q[b.target_att].bits : o.qbits[b.target_att];
     const std::string desc = topo.name + (point_cloud ? " pc" : " mesh") + " n=" + std::to_string(topo.nverts) + " nc=" + std::to_string(tg.nc) + " bits=" + std::to_string(tg.bits) + " style=" + tg.style +
                              (tg.explicit_q ? " explicit" : " auto") + (target_is_position ? " target=POSITION" : " target=other") + " | " + o.Describe() + ExplicitStr(tg);
     rep.note(desc);
@@ -348,6 +350,7 @@ int main(int argc, char **argv) {
     if (!tip2 && (pc2 || r.below(2))) o2.qbits[0] = 5 + r.below(12);
     for (size_t a = 0; a < o2.pred.size(); ++a) if (o2.pred[a] == MESH_PREDICTION_GEOMETRIC_NORMAL) o2.pred[a] = -100;
     vf::AvoidHugeEntropyTables(b2.g, &o2);
+    if (o2.explicit_q[b2.target_att].bits != tg.bits) { rep.count("second_encode_bits_constrained"); rep.held(0, false); return; }
     Run run2 = EncodeDecode(b2, o2, rep, desc + " || second: " + o2.Describe(), false);
     if (!run2.ok) { rep.count("encoder_refused_second/" + run2.refuse); rep.held(0, false); return; }
     int64_t shared = 0;
